@@ -9,6 +9,7 @@ From Bio.Model Require Import GoSem GoLib.
 From Bio.Model Require Sam.
 From Bio.Spec Require Import SamSpec.
 From Bio.Proofs Require Import ImpProofs ImpProofsB.
+From Bio.Proofs Require ImpProofsE.
 From Bio.Proofs Require SeqProofs SamProofsB.
 
 Import Sam.
@@ -97,4 +98,296 @@ Proof.
   change (go_range ?l _ ?a) with (go_range l tag_chunk_body a).
   rewrite tag_chunks_loop. cbn [after snd app join_with].
   unfold TAB, LF. repeat (rewrite <- ?app_assoc; cbn [app]). reflexivity.
+Qed.
+
+(* ---- splitTag ------------------------------------------------------------------------------------ *)
+Lemma cut_at_split sep s a r : cut_at sep s = Some (a, r) -> s = a ++ sep :: r.
+Proof.
+  revert a r. induction s as [|c s IH]; intros a r H; cbn [cut_at] in H; [discriminate|].
+  destruct (N.eqb_spec c sep) as [->|_].
+  - injection H as <- <-. reflexivity.
+  - destruct (cut_at sep s) as [[a' b']|]; [|discriminate]. injection H as <- <-.
+    cbn [app]. f_equal. apply IH. reflexivity.
+Qed.
+
+Definition st_body : Z * N -> Z * Z -> res (Z * Z) (list (list N) * bool) :=
+  fun p '(colon1, colon2) => let i := fst p in let c__ := snd p in
+  let c := Z.of_N c__ in (if (Z.eqb c (58)%Z) then (if (Z.eqb colon1 (-1)%Z) then let colon1 := i in Next (colon1, colon2) else let colon2 := i in Brk (colon1, colon2)) else Next (colon1, colon2)).
+
+Lemma st_second s : forall j c1 c2, c1 <> (-1)%Z ->
+  go_iter st_body (combine (zseq j (length s)) s) (c1, c2)
+  = match cut_at 58 s with
+    | None => Next (c1, c2)
+    | Some (b, _) => Next (c1, (j + Z.of_nat (length b))%Z)
+    end.
+Proof.
+  induction s as [|c s IH]; intros j c1 c2 H1; [reflexivity|].
+  cbn [length]. rewrite zseq_cons. cbn [combine go_iter cut_at]. unfold st_body at 1. cbn [fst snd]. cbv zeta.
+  replace (Z.of_N c =? 58)%Z with (c =? 58) by (destruct (N.eqb_spec c 58); lia).
+  destruct (c =? 58).
+  - replace (c1 =? -1)%Z with false by lia. cbn [length]. f_equal. f_equal. lia.
+  - rewrite IH by exact H1. destruct (cut_at 58 s) as [[b r]|]; [|reflexivity].
+    cbn [length]. f_equal. f_equal. lia.
+Qed.
+
+Lemma st_first s : forall j, (0 <= j)%Z ->
+  go_iter st_body (combine (zseq j (length s)) s) ((-1)%Z, (-1)%Z)
+  = match cut_at 58 s with
+    | None => Next ((-1)%Z, (-1)%Z)
+    | Some (a, rest) =>
+      match cut_at 58 rest with
+      | None => Next ((j + Z.of_nat (length a))%Z, (-1)%Z)
+      | Some (b, _) => Next ((j + Z.of_nat (length a))%Z, (j + Z.of_nat (length a) + 1 + Z.of_nat (length b))%Z)
+      end
+    end.
+Proof.
+  induction s as [|c s IH]; intros j Hj; [reflexivity|].
+  cbn [length]. rewrite zseq_cons. cbn [combine go_iter cut_at]. unfold st_body at 1. cbn [fst snd]. cbv zeta.
+  replace (Z.of_N c =? 58)%Z with (c =? 58) by (destruct (N.eqb_spec c 58); lia).
+  destruct (c =? 58).
+  - rewrite Z.eqb_refl. rewrite st_second by lia. cbn [length].
+    destruct (cut_at 58 s) as [[b r]|]; f_equal; f_equal; lia.
+  - rewrite IH by lia. destruct (cut_at 58 s) as [[a rest]|]; [|reflexivity].
+    cbn [length]. destruct (cut_at 58 rest) as [[b r]|]; f_equal; f_equal; lia.
+Qed.
+
+Lemma slice_mid {A S R} (pre mid post : list A) i j (k : list A -> res S R) :
+  i = go_len pre -> j = (go_len pre + go_len mid)%Z ->
+  go_slice (pre ++ mid ++ post) i j k = k mid.
+Proof.
+  intros -> ->. unfold go_slice, go_len. rewrite !app_length.
+  replace ((Z.of_nat (length pre) <? 0)%Z || (Z.of_nat (length pre) + Z.of_nat (length mid) <? Z.of_nat (length pre))%Z
+           || (Z.of_nat (length pre + (length mid + length post)) <? Z.of_nat (length pre) + Z.of_nat (length mid))%Z) with false by lia.
+  rewrite Nat2Z.id.
+  replace (Z.to_nat (Z.of_nat (length pre) + Z.of_nat (length mid) - Z.of_nat (length pre))) with (length mid) by lia.
+  rewrite skipn_app, skipn_all, Nat.sub_diag. cbn [app skipn].
+  rewrite firstn_app, Nat.sub_diag, firstn_all. cbn [firstn]. rewrite app_nil_r. reflexivity.
+Qed.
+
+Theorem imp_splitTag tag :
+  imp_sam_splitTag tag
+  = match split_tag tag with
+    | Some (a, b, c) => Ret ([a; b; c], false)
+    | None => Ret ([[]; []; []], true)
+    end.
+Proof.
+  unfold imp_sam_splitTag, split_tag, COLON. cbv zeta.
+  unfold go_range, indexed.
+  change (go_iter _ (combine (zseq 0 (length tag)) tag) ((-1)%Z, (-1)%Z))
+    with (go_iter st_body (combine (zseq 0 (length tag)) tag) ((-1)%Z, (-1)%Z)).
+  rewrite st_first by lia.
+  destruct (cut_at 58 tag) as [[a rest]|] eqn:E1; cbn [after]; [|reflexivity].
+  destruct (cut_at 58 rest) as [[b c]|] eqn:E2; cbn [after Z.eqb]; [|reflexivity].
+  apply cut_at_split in E1. apply cut_at_split in E2. subst rest. subst tag.
+  replace (0 + Z.of_nat (length a) + 1 + Z.of_nat (length b) =? -1)%Z with false by lia. cbn [after].
+  unfold bytes, byte in *.
+  remember (a ++ 58 :: b ++ 58 :: c) as T eqn:ET.
+  assert (T1 : T = [] ++ a ++ (58 :: b ++ 58 :: c)) by (rewrite ET; reflexivity).
+  assert (T2 : T = (a ++ [58]) ++ b ++ (58 :: c)) by (rewrite ET, <- app_assoc; reflexivity).
+  assert (T3 : T = (a ++ [58] ++ b ++ [58]) ++ c ++ []) by (rewrite ET, app_nil_r, <- !app_assoc; reflexivity).
+  assert (TL : go_len T = (Z.of_nat (length a) + 1 + Z.of_nat (length b) + 1 + Z.of_nat (length c))%Z)
+    by (rewrite ET; unfold go_len; rewrite !app_length; cbn [length]; rewrite !app_length; cbn [length]; lia).
+  rewrite T1 at 1. rewrite (slice_mid [] a _ _ _ _ eq_refl) by (unfold go_len; cbn [length]; lia).
+  unfold go_set at 1. cbn [go_len repeat length Z.of_nat Z.ltb Z.leb Z.compare orb Z.to_nat set_nth Pos.of_succ_nat Pos.succ].
+  rewrite T2 at 1. rewrite (slice_mid (a ++ [58]) b _ _ _ _) by (unfold go_len; rewrite ?app_length; cbn [length]; lia).
+  unfold go_set at 1. cbn [go_len length Z.of_nat Z.ltb Z.leb Z.compare orb Z.to_nat Pos.to_nat Pos.iter_op Nat.add set_nth Pos.of_succ_nat Pos.succ].
+  rewrite T3 at 1. rewrite (slice_mid (a ++ [58] ++ b ++ [58]) c [] _ _ _)
+    by (first [rewrite TL | idtac]; unfold go_len; rewrite ?app_length; cbn [length]; rewrite ?app_length; cbn [length]; lia).
+  unfold go_set at 1. cbn [go_len length Z.of_nat Z.ltb Z.leb Z.compare orb Z.to_nat Pos.to_nat Pos.iter_op Nat.add set_nth Pos.of_succ_nat Pos.succ].
+  reflexivity.
+Qed.
+
+(* ---- parseInts (the *int out-parameters are the list of the values they point to) ----------- *)
+Definition pi_body (i : Z) (s : list N) (p : list Z) : res (list Z) (list Z * bool) :=
+  let '(t__1, t__2) := go_atoi s in let n := t__1 in let err := t__2 in after (if err then Ret (p, (err)) else Next tt) (fun 'tt => go_set p i n (fun t__3 => let p := t__3 in Next p)).
+
+Lemma pi_loop : forall strs done rest,
+  length rest = length strs ->
+  match parse_ints_loop strs with
+  | Ok zs => go_iter (fun q => pi_body (fst q) (snd q)) (combine (zseq (Z.of_nat (length done)) (length strs)) strs) (done ++ rest)
+             = Next (done ++ zs)
+  | _ => exists p', go_iter (fun q => pi_body (fst q) (snd q)) (combine (zseq (Z.of_nat (length done)) (length strs)) strs) (done ++ rest)
+                    = Ret (p', true)
+  end.
+Proof.
+  induction strs as [|s strs IH]; intros done rest Hl.
+  - destruct rest; [|discriminate]. cbn. reflexivity.
+  - destruct rest as [|r0 rest]; [discriminate|]. injection Hl as Hl.
+    assert (E : go_iter (fun q => pi_body (fst q) (snd q)) (combine (zseq (Z.of_nat (length done)) (length (s :: strs))) (s :: strs)) (done ++ r0 :: rest)
+                = match atoi s with
+                  | Some z => go_iter (fun q => pi_body (fst q) (snd q)) (combine (zseq (Z.of_nat (length (done ++ [z]))) (length strs)) strs) ((done ++ [z]) ++ rest)
+                  | None => Ret (done ++ r0 :: rest, true)
+                  end).
+    { cbn [length]. rewrite zseq_cons. cbn [combine go_iter fst snd].
+      unfold pi_body at 1. unfold go_atoi.
+      destruct (atoi s) as [z|]; cbv beta iota zeta; cbn [after]; [|reflexivity].
+      rewrite (go_set_mid done r0 rest _ _ _ eq_refl).
+      replace (Z.of_nat (length done) + 1)%Z with (Z.of_nat (length (done ++ [z]))) by (rewrite app_length; cbn [length]; lia).
+      replace (done ++ z :: rest) with ((done ++ [z]) ++ rest) by (rewrite <- app_assoc; reflexivity).
+      reflexivity. }
+    rewrite E. cbn [parse_ints_loop].
+    destruct (atoi s) as [z|]; [|eexists; reflexivity].
+    specialize (IH (done ++ [z]) rest Hl).
+    destruct (parse_ints_loop strs) as [zs| |]; cbn [obind].
+    + rewrite IH, <- app_assoc. reflexivity.
+    + exact IH.
+    + exact IH.
+Qed.
+
+Theorem imp_parseInts strs p : length p = length strs ->
+  match parse_ints_loop strs with
+  | Ok zs => imp_sam_parseInts strs p = Ret (zs, false)
+  | _ => exists p', imp_sam_parseInts strs p = Ret (p', true)
+  end.
+Proof.
+  intros Hl. unfold imp_sam_parseInts. unfold bytes, byte in *.
+  destruct (Z.eqb_spec (go_len strs) (go_len p)) as [_|Hne]; [|unfold go_len in Hne; lia]. cbn [negb after].
+  unfold go_range, indexed.
+  change (go_iter _ ?l p) with (go_iter (fun q => pi_body (fst q) (snd q)) l p).
+  pose proof (pi_loop strs [] p Hl) as H. cbn [length app Z.of_nat] in H. unfold bytes, byte in *.
+  destruct (parse_ints_loop strs) as [zs| |].
+  - rewrite H. reflexivity.
+  - destruct H as (p' & ->). eexists. reflexivity.
+  - destruct H as (p' & ->). eexists. reflexivity.
+Qed.
+
+(* ---- parseTags ---------------------------------------------------------------------------------- *)
+Lemma map_set_tags k v m : go_map_set k (any_of v) (tags_of m) = tags_of (tag_set k v m).
+Proof.
+  induction m as [|[k' v'] m IH]; cbn [tags_of map go_map_set tag_set fst snd]; [reflexivity|].
+  destruct (beqb k' k); cbn [map fst snd]; [reflexivity|]. fold (tags_of m). rewrite IH. reflexivity.
+Qed.
+
+Section Tags.
+Variable o : foracle.
+
+Definition pt_body : list N -> list (list N * go_any) -> res (list (list N * go_any)) (list (list N * go_any) * bool) :=
+  (fun f result => go_call (imp_sam_splitTag f) (fun '(t__1, t__2) => let parts := t__1 in let err := t__2 in after (if err then Ret ([], err) else Next tt) (fun 'tt => go_index parts (1)%Z (fun t__3 => (if (beqb t__3 [65%N]) then go_index parts (2)%Z (fun t__4 => after (if (negb (Z.eqb (go_len t__4) (1)%Z)) then Ret ([], true) else Next tt) (fun 'tt => go_index parts (2)%Z (fun t__5 => go_index t__5 (0)%Z (fun t__6 => go_index parts (0)%Z (fun t__7 => let result := (go_map_set t__7 (AnyByte t__6) result) in Next result))))) else (if (beqb t__3 [105%N]) then go_index parts (2)%Z (fun t__8 => let '(t__9, t__10) := go_atoi t__8 in let x := t__9 in let err_2 := t__10 in after (if err_2 then Ret ([], true) else Next tt) (fun 'tt => go_index parts (0)%Z (fun t__11 => let result := (go_map_set t__11 (AnyInt x) result) in Next result))) else (if (beqb t__3 [102%N]) then go_index parts (2)%Z (fun t__12 => let '(t__13, t__14) := go_parse_float o t__12 in let x_2 := t__13 in let err_3 := t__14 in after (if err_3 then Ret ([], true) else Next tt) (fun 'tt => go_index parts (0)%Z (fun t__15 => let result := (go_map_set t__15 (AnyFloat x_2) result) in Next result))) else (if (beqb t__3 [90%N]) then go_index parts (2)%Z (fun t__16 => go_index parts (0)%Z (fun t__17 => let result := (go_map_set t__17 (AnyString t__16) result) in Next result)) else (if (beqb t__3 [72%N]) then go_index parts (2)%Z (fun t__18 => let '(t__19, t__20) := go_hex_decode t__18 in let x_3 := t__19 in let err_4 := t__20 in after (if err_4 then Ret ([], true) else Next tt) (fun 'tt => go_index parts (0)%Z (fun t__21 => let result := (go_map_set t__21 (AnyBytes x_3) result) in Next result))) else (if (beqb t__3 [66%N]) then go_index parts (2)%Z (fun t__22 => go_index parts (0)%Z (fun t__23 => let result := (go_map_set t__23 (AnyString t__22) result) in Next result)) else Ret ([], true))))))))))).
+
+Lemma pt_step f m :
+  pt_body f (tags_of m)
+  = match split_tag f with
+    | None => Ret ([], true)
+    | Some (name, ty, v) =>
+      match parse_tag_value o ty v with
+      | None => Ret ([], true)
+      | Some tv => Next (tags_of (tag_set name tv m))
+      end
+    end.
+Proof.
+  unfold pt_body. rewrite imp_splitTag.
+  destruct (split_tag f) as [[[name ty] v]|]; cbn [go_call]; cbv beta iota zeta; cbn [after]; [|reflexivity].
+  assert (I0 : forall S' (k : list N -> res S' (list (list N * go_any) * bool)), go_index [name; ty; v] 0 k = k name) by reflexivity.
+  assert (I1 : forall S' (k : list N -> res S' (list (list N * go_any) * bool)), go_index [name; ty; v] 1 k = k ty) by reflexivity.
+  assert (I2 : forall S' (k : list N -> res S' (list (list N * go_any) * bool)), go_index [name; ty; v] 2 k = k v) by reflexivity.
+  unfold parse_tag_value. rewrite I1.
+  destruct (beqb ty [65%N]).
+  { rewrite !I2. destruct v as [|b [|b' v']].
+    - reflexivity.
+    - change (go_len [b] =? 1)%Z with true. cbn [negb after].
+      rewrite (ImpProofsE.go_index_some [b] 0%Z b) by (first [lia | reflexivity]). rewrite I0. rewrite (map_set_tags name (TA b)). reflexivity.
+    - replace (go_len (b :: b' :: v') =? 1)%Z with false by (unfold go_len; cbn [length]; lia). reflexivity. }
+  destruct (beqb ty [105%N]).
+  { rewrite I2. unfold go_atoi. destruct (atoi v) as [z|]; cbv beta iota zeta; cbn [after option_map]; [|reflexivity].
+    rewrite I0, (map_set_tags name (TI z)). reflexivity. }
+  destruct (beqb ty [102%N]).
+  { rewrite I2. unfold go_parse_float. destruct (parseF o v) as [x|]; cbv beta iota zeta; cbn [after option_map]; [|reflexivity].
+    rewrite I0, (map_set_tags name (TF x)). reflexivity. }
+  destruct (beqb ty [90%N]).
+  { rewrite I2, I0, (map_set_tags name (TZ v)). reflexivity. }
+  destruct (beqb ty [72%N]).
+  { rewrite I2. unfold go_hex_decode. destruct (hex_decode v) as [h|]; cbv beta iota zeta; cbn [after option_map]; [|reflexivity].
+    rewrite I0, (map_set_tags name (TH h)). reflexivity. }
+  destruct (beqb ty [66%N]).
+  { rewrite I2, I0, (map_set_tags name (TZ v)). reflexivity. }
+  reflexivity.
+Qed.
+
+Lemma pt_loop values : forall m,
+  go_iter pt_body values (tags_of m)
+  = match parse_tags_from o m values with
+    | Ok m' => Next (tags_of m')
+    | _ => Ret ([], true)
+    end.
+Proof.
+  induction values as [|f values IH]; intros m; cbn [go_iter parse_tags_from]; [reflexivity|].
+  rewrite pt_step. destruct (split_tag f) as [[[name ty] v]|]; [|reflexivity].
+  destruct (parse_tag_value o ty v) as [tv|]; [|reflexivity]. apply IH.
+Qed.
+
+Theorem imp_parseTags values :
+  imp_sam_parseTags o values
+  = match parse_tags o values with Ok m => Ret (tags_of m, false) | _ => Ret ([], true) end.
+Proof.
+  unfold imp_sam_parseTags, parse_tags. cbv zeta.
+  rewrite (ImpProofs.go_range_elems values pt_body).
+  change (@nil (list N * go_any)) with (tags_of []) at 1.
+  rewrite pt_loop. destruct (parse_tags_from o [] values); reflexivity.
+Qed.
+
+End Tags.
+
+(* ---- parseLine ------------------------------------------------------------------------------------ *)
+Definition sam_zero : imp_sam_SAM := Imp_sam_SAM [] 0%Z [] 0%Z 0%Z [] [] 0%Z 0%Z [] [] [].
+
+Lemma parse_ints_loop_length strs : forall zs, parse_ints_loop strs = Ok zs -> length zs = length strs.
+Proof.
+  induction strs as [|s strs IH]; intros zs H; cbn [parse_ints_loop] in H.
+  - injection H as <-. reflexivity.
+  - destruct (atoi s); [|discriminate]. destruct (parse_ints_loop strs) as [zs'| |]; try discriminate.
+    cbn [obind] in H. injection H as <-. cbn [length]. f_equal. apply IH. reflexivity.
+Qed.
+
+Lemma parse_ints_loop_no_panic strs : parse_ints_loop strs <> Panic.
+Proof.
+  induction strs as [|s strs IH]; cbn [parse_ints_loop]; [discriminate|].
+  destruct (atoi s); [|discriminate]. destruct (parse_ints_loop strs); cbn [obind]; try discriminate. congruence.
+Qed.
+
+Theorem imp_parseLine o line :
+  imp_sam_parseLine o line
+  = match parse_line o line with
+    | Ok r => Ret (sam_of r, false)
+    | _ => Ret (sam_zero, true)
+    end.
+Proof.
+  unfold imp_sam_parseLine, parse_line. unfold bytes, byte in *. change (Imp_sam_SAM [] 0%Z [] 0%Z 0%Z [] [] 0%Z 0%Z [] [] []) with sam_zero.
+  destruct line as [|f0 [|f1 [|f2 [|f3 [|f4 [|f5 [|f6 [|f7 [|f8 [|f9 [|f10 rest]]]]]]]]]]]; try reflexivity.
+  replace (go_len (f0 :: f1 :: f2 :: f3 :: f4 :: f5 :: f6 :: f7 :: f8 :: f9 :: f10 :: rest) <? 11)%Z with false
+    by (unfold go_len; cbn [length]; lia).
+  cbn [after]. cbv zeta.
+  set (line := f0 :: f1 :: f2 :: f3 :: f4 :: f5 :: f6 :: f7 :: f8 :: f9 :: f10 :: rest).
+  assert (I : forall S' R' (k : list N -> res S' R'),
+    go_index line 0%Z k = k f0 /\ go_index line 1%Z k = k f1 /\ go_index line 2%Z k = k f2 /\ go_index line 3%Z k = k f3
+    /\ go_index line 4%Z k = k f4 /\ go_index line 5%Z k = k f5 /\ go_index line 6%Z k = k f6 /\ go_index line 7%Z k = k f7
+    /\ go_index line 8%Z k = k f8 /\ go_index line 9%Z k = k f9 /\ go_index line 10%Z k = k f10) by (intros; repeat split; reflexivity).
+  rewrite (proj1 (I _ _ _)).
+  rewrite (proj1 (proj2 (proj2 (I _ _ _)))).
+  rewrite (proj1 (proj2 (proj2 (proj2 (proj2 (proj2 (I _ _ _))))))).
+  rewrite (proj1 (proj2 (proj2 (proj2 (proj2 (proj2 (proj2 (I _ _ _)))))))).
+  rewrite (proj1 (proj2 (proj2 (proj2 (proj2 (proj2 (proj2 (proj2 (proj2 (proj2 (I _ _ _))))))))))).
+  rewrite (proj2 (proj2 (proj2 (proj2 (proj2 (proj2 (proj2 (proj2 (proj2 (proj2 (I _ _ _))))))))))).
+  cbn [go_snm_at].
+  rewrite (proj1 (proj2 (I _ _ _))).
+  rewrite (proj1 (proj2 (proj2 (proj2 (I _ _ _))))).
+  rewrite (proj1 (proj2 (proj2 (proj2 (proj2 (I _ _ _)))))).
+  rewrite (proj1 (proj2 (proj2 (proj2 (proj2 (proj2 (proj2 (proj2 (I _ _ _))))))))).
+  rewrite (proj1 (proj2 (proj2 (proj2 (proj2 (proj2 (proj2 (proj2 (proj2 (I _ _ _)))))))))).
+  cbn [imp_sam_SAM_Flag imp_sam_SAM_Pos imp_sam_SAM_Mapq imp_sam_SAM_Pnext imp_sam_SAM_Tlen
+       imp_sam_SAM_with_Qname imp_sam_SAM_with_Rname imp_sam_SAM_with_Cigar imp_sam_SAM_with_Rnext imp_sam_SAM_with_Seq imp_sam_SAM_with_Qual].
+  change [imp_sam_SAM_Flag sam_zero; imp_sam_SAM_Pos sam_zero; imp_sam_SAM_Mapq sam_zero; imp_sam_SAM_Pnext sam_zero; imp_sam_SAM_Tlen sam_zero] with [0; 0; 0; 0; 0]%Z.
+  unfold parse_ints. cbn [length Nat.eqb]. unfold bytes, byte in *.
+  pose proof (imp_parseInts [f1; f3; f4; f7; f8] [0; 0; 0; 0; 0]%Z eq_refl) as HP.
+  pose proof (parse_ints_loop_length [f1; f3; f4; f7; f8]) as HL.
+  pose proof (parse_ints_loop_no_panic [f1; f3; f4; f7; f8]) as HN. unfold bytes, byte in *.
+  destruct (parse_ints_loop [f1; f3; f4; f7; f8]) as [zs| |]; cbn [obind]; [| |congruence].
+  - specialize (HL zs eq_refl). destruct zs as [|fl [|po [|mq [|pn [|tl [|x zs]]]]]]; try (cbn [length] in HL; lia).
+    rewrite HP. cbn [go_call nth]. cbv zeta. cbn [after].
+    unfold go_slice, go_len, line. cbn [length].
+    replace ((11 <? 0)%Z || (Z.of_nat (S (S (S (S (S (S (S (S (S (S (S (length rest)))))))))))) <? 11)%Z
+             || (Z.of_nat (S (S (S (S (S (S (S (S (S (S (S (length rest)))))))))))) <? Z.of_nat (S (S (S (S (S (S (S (S (S (S (S (length rest)))))))))))))%Z) with false by lia.
+    replace (Z.to_nat (Z.of_nat (S (S (S (S (S (S (S (S (S (S (S (length rest))))))))))))- 11)) with (length rest) by lia.
+    change (Z.to_nat 11) with 11%nat. cbn [skipn]. rewrite firstn_all.
+    rewrite imp_parseTags. destruct (parse_tags o rest) as [m| |]; cbn [go_call obind]; cbv zeta; cbn [after]; reflexivity.
+  - destruct HP as (p' & ->). cbn [go_call]. cbv zeta. cbn [after]. reflexivity.
 Qed.
